@@ -245,15 +245,37 @@ func (h *harness) startController() {
 	})
 	ctl := ippool.NewController(context.Background(), cli, inc.poolInf, inc.blockInf, &ipamStub{inc: inc})
 	// Initial LIST of both informers: the state of the API server now; handlers see every object as an add.
-	for inc.blockInf.pos < len(h.api.blockLog) {
-		inc.blockInf.deliverOne()
+	// The two informers are independent reflectors: in some starts one of them completes its initial list only
+	// after the controller's Run has begun (HasSynced is false until then).
+	initial := func(i *informer) {
+		for i.pos < len(i.log()) {
+			i.deliverOne()
+		}
+		i.synced = true
 	}
-	for inc.poolInf.pos < len(h.api.poolLog) {
-		inc.poolInf.deliverOne()
+	late := (*informer)(nil)
+	switch h.r.Src.Weighted([]int{5, 3, 2}, "startup_informer_order") {
+	case 1:
+		late = inc.blockInf
+	case 2:
+		late = inc.poolInf
+	}
+	if late != inc.blockInf {
+		initial(inc.blockInf)
+	}
+	if late != inc.poolInf {
+		initial(inc.poolInf)
 	}
 	h.inc = inc
 	h.r.Logf("controller #%d started (%d pools, %d blocks in its caches)", inc.id, len(inc.poolInf.idx.ListKeys()), len(inc.blockInf.idx.ListKeys()))
 	go ctl.Run(inc.stop)
+	if late != nil {
+		h.r.Fault("informer_initial_list_late")
+		d := time.Duration(h.r.Src.Range(1, 40, "startup_late_by")) * 100 * time.Millisecond
+		h.r.Logf("  the %s informer completes its initial list %v after Run started", late.kind, d)
+		h.sleep(d)
+		initial(late)
+	}
 }
 
 func (inc *incarnation) onPoolList() {
@@ -442,6 +464,7 @@ type informer struct {
 	wrapped  cache.Indexer
 	handlers []cache.ResourceEventHandler
 	pos      int
+	synced   bool // the initial list has been delivered
 }
 
 type seamIndexer struct {
@@ -458,7 +481,7 @@ func (i *informer) AddEventHandler(hd cache.ResourceEventHandler) (cache.Resourc
 	i.handlers = append(i.handlers, hd)
 	return nil, nil
 }
-func (i *informer) HasSynced() bool           { return true }
+func (i *informer) HasSynced() bool           { return i.synced }
 func (i *informer) GetIndexer() cache.Indexer { return i.wrapped }
 func (i *informer) GetStore() cache.Store     { return i.wrapped }
 
